@@ -169,6 +169,13 @@ impl<'a, R: RealNumberInternalTrait> Interpreter<'a, R> {
         .unwrap();
     }
 
+    /// verification hook: the libraries currently marked as being imported (must be empty
+    /// whenever no import is running)
+    #[cfg(ruschm_verif)]
+    pub fn verif_in_progress(&self) -> Vec<LibraryName> {
+        self.imported_library.iter().cloned().collect()
+    }
+
     pub fn get_lib_loader(&self) -> &LibraryLoader<R> {
         &self.lib_loader
     }
